@@ -4,11 +4,14 @@
 From JV Require Import Lib.Base.
 
 (* ---- type hints and values (deliberately small: conversion is C02/C05's business) ---- *)
-Inductive ty := TInt | TStr | TBool | TList | TOpt (t : ty).          (* TList = List[int] *)
-Inductive value := VInt (z : Z) | VStr (s : str) | VBool (b : bool) | VNone | VList (l : list Z).
+Inductive ty := TInt | TStr | TBool | TList | TOpt (t : ty)           (* TList = List[int] *)
+            | TData.   (* the dataclass  Point(x: int = 0, y: int = 0): a type whose values are built by instantiate_classes *)
+Inductive value := VInt (z : Z) | VStr (s : str) | VBool (b : bool) | VNone | VList (l : list Z)
+               | VData (x y : Z).   (* the instance Point(x, y) *)
 (* what the user wrote, before conversion: argv text `3`, `abc`, `true`, `null`, `[1,2]`, or the same
    thing as a JSON value inside a --config document *)
-Inductive raw := RInt (z : Z) | RStr (s : str) | RBool (b : bool) | RNull | RList (l : list Z).
+Inductive raw := RInt (z : Z) | RStr (s : str) | RBool (b : bool) | RNull | RList (l : list Z)
+             | RData (x y : Z).   (* {"x": x, "y": y} as one argv value, as --k.x=x --k.y=y, or as a config section *)
 
 Definition value_eqb (a b : value) : bool :=
   match a, b with
@@ -17,8 +20,13 @@ Definition value_eqb (a b : value) : bool :=
   | VBool x, VBool y => Bool.eqb x y
   | VNone, VNone => true
   | VList x, VList y => list_eqb Z.eqb x y
+  | VData x1 y1, VData x2 y2 => Z.eqb x1 x2 && Z.eqb y1 y2
   | _, _ => false
   end.
+
+(* the default a type brings by itself: a dataclass-typed parameter is added as a group of nested options, one per
+   field, and every field of Point has a default, so the parameter can be left out: Point() *)
+Definition ty_default (t : ty) : option value := match t with TData => Some (VData 0 0) | _ => None end.
 
 (* ---- signatures ---- *)
 Inductive pkind := PosOrKw | KwOnly.
@@ -85,6 +93,7 @@ Fixpoint conv_simple (t : ty) (r : raw) : option value :=
   | TStr, RStr s => Some (VStr s)
   | TBool, RBool b => Some (VBool b)
   | TList, RList l => Some (VList l)
+  | TData, RData x y => Some (VData x y)
   | TOpt _, RNull => Some VNone
   | TOpt t', _ => conv_simple t' r
   | _, _ => None
